@@ -1536,6 +1536,32 @@ fn run(a: &Args) {
                                             cur = (pos + 1) % n;
                                         }
                                     }
+                                    // C08 / C02: a worker whose availability bit is set has room — also after a fault forced a
+                                    // connection onto a saturated survivor (which stays unavailable until it has released
+                                    // enough). Judged while no replacement has joined (a replacement shares its predecessor's
+                                    // index, whose late notifications may mark it available: outside C02's fault-free scope).
+                                    // seed14 C08-28 wrote `set_available(idx, inc_counter())`: above the limit `inc` answers true.
+                                    // With deaths in the history a justified notification can be overtaken by a forced dispatch
+                                    // (the worker is then full AND marked available — the unchanged code does that), so only
+                                    // an iteration that processed NO notification is judged: it must not turn a bit on.
+                                    if w.restarted == 0 && !report.exited && (!w.any_die || (quiet && queued_before == 0)) {
+                                        for &i in after.handles.iter() {
+                                            if let Some(wid) = w.alive_wid(i) {
+                                                // the shared counter itself (biased by one) is the authority on "in progress"
+                                                let inprog = w.ends[wid].counter_raw() as i64 - 1;
+                                                let turned_on = after.avail.get(i) == Some(&true) && (!w.any_die || before.avail.get(i) == Some(&false));
+                                                if turned_on && inprog >= w.limit as i64 {
+                                                    let msg = format!(
+                                                        "worker {i}'s counter shows {inprog} connections in progress (limit {}) and the worker is marked AVAILABLE after this iteration: it will be given more",
+                                                        w.limit);
+                                                    let tags: &[&str] = if w.any_die { &["C08"] } else { &["C08", "C02", "C04"] };
+                                                    for p in tags {
+                                                        w.t3.push((p.to_string(), msg.clone()));
+                                                    }
+                                                }
+                                            }
+                                        }
+                                    }
                                     // C04: after an iteration that dispatched, the cursor stands right behind the worker that
                                     // got the LAST connection (every dispatch advances it; seed13 C04-25 left it on a worker
                                     // the send had just saturated, so that worker is served twice in a row once it releases)
